@@ -189,7 +189,7 @@ Proof.
   assert (Hnu : l_nu ls0 = 0) by reflexivity.
   destruct (q_join q) as [js|] eqn:Ej.
   - destruct (build (j_rhs js) B) as [m|bnr] eqn:Eb; [|discriminate]. injection Hjm as <-.
-    destruct (main_loop_select w q Hagg Hupd (Some m) A ls0 0 offs Hnu Hoff) as [nr' [L1 [L2 L3]]].
+    destruct (main_loop_select w q Hagg Hupd (Some (widen (j_bhdr js) m)) A ls0 0 offs Hnu Hoff) as [nr' [L1 [L2 L3]]].
     rewrite L1. cbn [finish fed l_agg l_chain ls0 o_error o_chain o_pulls]. cbn in L2, L3. repeat split; auto.
   - injection Hjm as <-.
     destruct (main_loop_select w q Hagg Hupd None A ls0 0 offs Hnu Hoff) as [nr' [L1 [L2 L3]]].
@@ -213,7 +213,7 @@ Proof.
   set (ls0 := {| l_chain := set_header chain_init hdr; l_agg := None; l_nu := 0 |}).
   destruct (q_join q) as [js|] eqn:Ej.
   - destruct (build (j_rhs js) B) as [m|bnr] eqn:Eb; [|discriminate]. injection Hjm as <-.
-    rewrite (main_loop_first_offender w q Hagg Hupd (Some m) A1 ls0 0 offs1 a A2 part e eq_refl Hoff He Hs).
+    rewrite (main_loop_first_offender w q Hagg Hupd (Some (widen (j_bhdr js) m)) A1 ls0 0 offs1 a A2 part e eq_refl Hoff He Hs).
     cbn. repeat split.
   - injection Hjm as <-.
     rewrite (main_loop_first_offender w q Hagg Hupd None A1 ls0 0 offs1 a A2 part e eq_refl Hoff He Hs).
@@ -296,7 +296,7 @@ Proof.
     { apply (top_refuses (cfg_of q) n C1 C2 C3); cbn; lia. }
     destruct (q_join q) as [js|] eqn:Ej.
     - destruct (build (j_rhs js) B) as [m|bnr] eqn:Eb; [|discriminate]. injection Hjm as <-.
-      rewrite (main_loop_app_stop yes q Hagg Hupd (Some m) A1 ls0 0 offs1 eq_refl Hoff Hs A2). reflexivity.
+      rewrite (main_loop_app_stop yes q Hagg Hupd (Some (widen (j_bhdr js) m)) A1 ls0 0 offs1 eq_refl Hoff Hs A2). reflexivity.
     - injection Hjm as <-.
       rewrite (main_loop_app_stop yes q Hagg Hupd None A1 ls0 0 offs1 eq_refl Hoff Hs A2). reflexivity. }
   rewrite Hrun. split; [reflexivity|].
